@@ -22,7 +22,7 @@ type C08Rule struct {
 }
 
 type C08Op struct {
-	Kind   string    `json:"kind"` // full | incr | remove
+	Kind   string    `json:"kind"` // full | incr | remove | refull (the byte-identical text of the last full build again)
 	Rules  []C08Rule `json:"rules,omitempty"`
 	Remove []string  `json:"remove,omitempty"`
 }
@@ -55,7 +55,11 @@ func genC08Rules(t *rapid.T, pfx string, step int) []C08Rule {
 	perm := rapid.Permutation(c08Universe).Draw(t, pfx+"names")
 	var out []C08Rule
 	for i := 0; i < n; i++ {
-		out = append(out, C08Rule{Name: perm[i], Sal: int64(uni(t, fmt.Sprintf("%ssal%d", pfx, i), -1, 3)), Desc: fmt.Sprintf("d%d_%d", step, i)})
+		sal := int64(uni(t, fmt.Sprintf("%ssal%d", pfx, i), -1, 3))
+		if pct(t, fmt.Sprintf("%sext%d", pfx, i), 6) {
+			sal = salExtremes[uni(t, fmt.Sprintf("%sextv%d", pfx, i), 0, len(salExtremes)-1)]
+		}
+		out = append(out, C08Rule{Name: perm[i], Sal: sal, Desc: fmt.Sprintf("d%d_%d", step, i)})
 	}
 	return out
 }
@@ -76,6 +80,8 @@ func init() {
 				switch k := uni(t, pfx+"kind", 0, 9); {
 				case k <= 1 || i == 0:
 					c.Ops = append(c.Ops, C08Op{Kind: "full", Rules: genC08Rules(t, pfx, i)})
+				case k == 2:
+					c.Ops = append(c.Ops, C08Op{Kind: "refull"})
 				case k <= 6:
 					c.Ops = append(c.Ops, C08Op{Kind: "incr", Rules: genC08Rules(t, pfx, i)})
 				default:
@@ -96,12 +102,26 @@ func init() {
 			model := map[string]c08Entry{}
 			salChanged := false
 			tieTouches := map[int64]int{}
+			var lastFullText string
+			var lastFullRules []C08Rule
+			var lastFullTags map[string]int64
 			for step, op := range c.Ops {
 				var err error
 				var pan string
 				switch op.Kind {
+				case "refull":
+					x.Class("identical-full-text-resubmitted")
+					text, tags := lastFullText, lastFullTags
+					err, pan = guard(func() error { return rb.BuildRuleFromString(text) })
+					if err == nil {
+						model = map[string]c08Entry{}
+						for _, r := range lastFullRules {
+							model[r.Name] = c08Entry{r.Sal, r.Desc, tags[r.Name]}
+						}
+					}
 				case "full":
 					text, tags := c08Text(op.Rules, int64(step*100))
+					lastFullText, lastFullRules, lastFullTags = text, op.Rules, tags
 					err, pan = guard(func() error { return rb.BuildRuleFromString(text) })
 					if err == nil {
 						model = map[string]c08Entry{}
